@@ -82,9 +82,11 @@ class NullSink:
     def __init__(self):
         self.n = 0
         self.max_write = 0
+        self.h = __import__("hashlib").sha1()
 
     def write(self, b):
         self.n += len(b)
+        self.h.update(b)
         if len(b) > self.max_write:
             self.max_write = len(b)
         return len(b)
@@ -106,7 +108,7 @@ class C13(Check):
         "(A/B stream) every 1-2 row scaffold over the C03 row scope x width x every buffer in the set: identical bytes, every BytesIO, "
         "chunk and read <= buffer; (C) sequence/fragment(+/-)/gap 400 buffers long, buffers 4096 and 65536: tracemalloc peak <= 8*buffer+256KiB after an untraced warm-up. "
         "non-trivial = case in which the buffer is smaller than the sequence/fragment/gap (so a flush or chunk split happens)"
-        " Second record wider and longer than the first; a non-N ambiguity code in the index scope; a second stream with gap character 'n' from the same index object; two-width long run; tracemalloc after an untraced warm-up, bound 8*buffer+256KiB."
+        " Second record wider and longer than the first; a non-N ambiguity code in the index scope; a second stream with gap character 'n' from the same index object; two-width long run; tracemalloc after an untraced warm-up, bound 8*buffer+256KiB. Object path: a 3-record file (one record all N) indexed through FastaIndex(path, buffer).auto_load() for 10 buffers x widths {7,60} x LF/CRLF under the same BytesIO monitor, then re-loaded from the cache files. Long runs also through FastaIndex.auto_load (object path, cache files written) and on CRLF files; long streams are compared byte for byte (sha1) with the construction."
     )
     assumptions = [
         "BytesIO objects created by tola.fasta.index / tola.fasta.simple are the only per-residue storage (confirmed by the tracemalloc runs)",
@@ -129,8 +131,11 @@ class C13(Check):
                 for strand in (1, -1, 0):
                     out.append(("stream", w, eol, strand))
         for buf in b["long_buffers"]:
-            for what in ("index", "index-2widths", "fwd", "rev", "gap", "single-line"):
+            for what in ("index", "index-2widths", "fwd", "rev", "gap", "single-line", "index-object", "fwd-crlf", "rev-crlf"):
                 out.append(("long", buf, what))
+        for w in (7, 60):
+            for eol in ("LF", "CRLF"):
+                out.append(("object", w, eol))
         return out
 
     # ------------------------------------------------------------------
@@ -256,6 +261,9 @@ class C13(Check):
         ctx.evaluations += 1
         ctx.nontrivial += 1
         remove_monitors()
+        crlf = what.endswith("-crlf")
+        what = what.replace("-crlf", "")
+        eolb = b"\r\n" if crlf else b"\n"
         # one-time allocations (regex compilation, lazy imports) are taken out of the measurement by a small
         # untraced warm-up of the same code paths
         n = 400 * buf
@@ -267,7 +275,7 @@ class C13(Check):
             unit = b"ACGTTGCAAGGCTTAACCGGATATCGCGAATTCCGGAAGCTTGGATCCAAGCTTACGTAC"
             assert len(unit) == 60
             with path.open("wb") as fh:
-                fh.write(b">chr1\n")
+                fh.write(b">chr1" + eolb)
                 if what == "index-2widths":
                     fh.write(b"AC\nGT\nAC\n>chrL\n")
                     wide = unit * 16 + b"ACGTACGTAC" * 4  # 1000 residues per line
@@ -275,9 +283,9 @@ class C13(Check):
                 elif what == "single-line":
                     fh.write(unit * (n // 60) + b"\n")
                 else:
-                    line = unit + b"\n"
+                    line = unit + eolb
                     fh.write(line * (n // 60))
-                fh.write(b">chr2\nACGT\n")
+                fh.write(b">chr2" + eolb + b"ACGT" + eolb)
             total = (n // 60) * 60
             import gc
 
@@ -301,6 +309,22 @@ class C13(Check):
                     ctx.violation("long-index-wrong", case, f"{idx!r}")
                 if peak > limit + 4 * 1000:
                     ctx.violation("index-memory-exceeds-bound", case, f"peak {peak} > {limit + 4000}")
+                return
+            if what == "index-object":
+                # the same bound when the indexing run is started through the FastaIndex object (cache files written beside the FASTA)
+                wfi2 = FastaIndex(warm, 7)
+                wfi2.auto_load()
+                gc.collect()
+                fio = FastaIndex(path, buf)
+                tracemalloc.start()
+                fio.auto_load()
+                _, peak = tracemalloc.get_traced_memory()
+                tracemalloc.stop()
+                ctx.extra[f"peak_{what}_{buf}"] = peak
+                if fio.index["chr1"].length != total:
+                    ctx.violation("long-index-wrong", case, f"{fio.index['chr1']!r}")
+                if peak > limit:
+                    ctx.violation("index-memory-exceeds-bound/through-object", case, f"peak {peak} > {limit}")
                 return
             if what in ("index", "single-line"):
                 tracemalloc.start()
@@ -332,13 +356,67 @@ class C13(Check):
             want = scffld.length + -(-scffld.length // 60) + len(scffld.name) + 2
             if sink.n != want:
                 ctx.violation("long-stream-wrong-size", case, f"{sink.n} != {want}")
+            elif what in ("fwd", "rev"):
+                # the bytes themselves, known by construction (and therefore the same for every buffer size)
+                seq = (unit * (n // 60))[1 : total - 1]
+                if what == "rev":
+                    seq = fm.ref_revcomp(seq)
+                exp = __import__("hashlib").sha1(b">f\n" + fm.wrap(seq, 60)).hexdigest()
+                if sink.h.hexdigest() != exp:
+                    ctx.violation("long-stream-wrong-bytes", case, f"sha1 {sink.h.hexdigest()} expected {exp}")
             fi.fasta_fileandle.close()
         finally:
             shutil.rmtree(d, ignore_errors=True)
         ctx.sample({"long": what, "buffer": buf, "residues": n})
 
+    def check_object(self, w, eol, ctx, only_buf=None):
+        """
+        the buffer size given to a FastaIndex object is the one its indexing run uses: same monitors as check_index,
+        on a real file indexed through auto_load (cold), then loaded again from the cache files it wrote
+        """
+        install_monitors()
+        eolb = b"\r\n" if eol == "CRLF" else b"\n"
+        recs = [("r1", b"ACGT" * 40 + b"N" * 90 + b"acgtn" * 30, w), ("r2", b"N" * 75, w), ("r3", b"AC", w)]
+        data, exp = fm.make_fasta(recs, eolb, True)
+        base = "/dev/shm" if Path("/dev/shm").is_dir() else None
+        d = Path(tempfile.mkdtemp(prefix="verif_c13_", dir=base))
+        try:
+            for buf in [only_buf] if only_buf else (1, 2, w - 1, w, w + 1, 89, 90, 91, 400, 250000):
+                case = ["object", w, eol, buf]
+                ctx.cur = case
+                ctx.evaluations += 1
+                ctx.nontrivial += 1
+                path = d / f"o{buf}.fa"
+                path.write_bytes(data)
+                MON["hwm"] = 0
+                fi = FastaIndex(path, buf)
+                try:
+                    fi.auto_load()
+                except Exception as e:  # noqa: BLE001
+                    ctx.violation(f"index-raises:{type(e).__name__}/through-object", case, repr(e))
+                    continue
+                if MON["hwm"] > buf + w:
+                    ctx.violation("index-buffer-exceeds-bound/through-object", case, f"high-water {MON['hwm']} > buffer {buf} + line {w}")
+                got = {n: (i.length, i.file_offset, i.residues_per_line, i.max_line_length) for n, i in fi.index.items()}
+                rows = [(s.name, fm.rows_of(s)) for s in fi.assembly.scaffolds]
+                want_rows = [(n, fm.expected_runs(n, s)) for n, s, _ in recs]
+                if got != exp or rows != want_rows:
+                    ctx.violation("index-depends-on-buffer/through-object", case, f"{got!r} {rows!r}")
+                fi2 = FastaIndex(path, buf)
+                fi2.auto_load()
+                got2 = {n: (i.length, i.file_offset, i.residues_per_line, i.max_line_length) for n, i in fi2.index.items()}
+                rows2 = [(s.name, fm.rows_of(s)) for s in fi2.assembly.scaffolds]
+                if got2 != exp or rows2 != want_rows:
+                    ctx.violation("cache-reload-differs/through-object", case, f"{got2!r} {rows2!r}")
+                ctx.outcome((got, rows))
+        finally:
+            shutil.rmtree(d, ignore_errors=True)
+        ctx.sample({"object": "FastaIndex(path, buffer).auto_load()", "width": w, "eol": eol})
+
     def run_shard(self, shard, ctx):
         kind = shard[0]
+        if kind == "object":
+            return self.check_object(shard[1], shard[2], ctx)
         if kind == "index":
             _, w, eol, fnl, ln = shard
             for k in range(1, ln + 1):
@@ -378,6 +456,8 @@ class C13(Check):
                 ctx.violation("stream-depends-on-buffer", case, repr(outs))
         elif kind == "long":
             self.check_long(case[1], case[2], ctx)
+        elif kind == "object":
+            self.check_object(case[1], case[2], ctx, only_buf=case[3])
 
 
 CHECK = C13()
